@@ -184,9 +184,10 @@ def normalise_module(tree):
     k = strip_casts(tree)
     if k:
         done.append("%d typing.cast" % k)
-    k = defunctionalise(tree)
+    k = defunctionalise(tree) + more_spellings(tree)
     if k:
         done.append("%d functional forms" % k)
+        defunctionalise(tree)  # (loops over the generator expressions that fusion produced)
     k = normalise_while_true(tree)
     if k:
         done.append("%d while-True loops" % k)
@@ -1133,7 +1134,17 @@ def defunctionalise(tree):
                 gen = ast.GeneratorExp(elt=call_of(a[0], [ast.Name(id=v, ctx=ast.Load())], node), generators=[ast.comprehension(target=ast.Name(id=v, ctx=ast.Store()), iter=a[1], ifs=[], is_async=0)])
             elif q == "itertools.starmap" and len(a) == 2:
                 v = fresh(node)
-                gen = ast.GeneratorExp(elt=ast.Call(func=a[0], args=[ast.Starred(value=ast.Name(id=v, ctx=ast.Load()), ctx=ast.Load())], keywords=[]), generators=[ast.comprehension(target=ast.Name(id=v, ctx=ast.Store()), iter=a[1], ifs=[], is_async=0)])
+                # starmap(self.m, pairs) with m(self, x, y) a method of the module: the items are destructured as (x, y)
+                names = None
+                if isinstance(a[0], ast.Attribute) and isinstance(a[0].value, ast.Name) and a[0].value.id in ("self", "cls"):
+                    defs = [f for f in ast.walk(tree) if isinstance(f, ast.FunctionDef) and f.name == a[0].attr]
+                    if len(defs) == 1 and not defs[0].args.vararg and not defs[0].args.kwonlyargs and not defs[0].args.defaults and len(defs[0].args.args) >= 2:
+                        names = [x.arg + "_%d" % counter[0] for x in defs[0].args.args[1:]]
+                if names:
+                    tgt = ast.Tuple(elts=[ast.Name(id=nm, ctx=ast.Store()) for nm in names], ctx=ast.Store())
+                    gen = ast.GeneratorExp(elt=ast.Call(func=a[0], args=[ast.Name(id=nm, ctx=ast.Load()) for nm in names], keywords=[]), generators=[ast.comprehension(target=tgt, iter=a[1], ifs=[], is_async=0)])
+                else:
+                    gen = ast.GeneratorExp(elt=ast.Call(func=a[0], args=[ast.Starred(value=ast.Name(id=v, ctx=ast.Load()), ctx=ast.Load())], keywords=[]), generators=[ast.comprehension(target=ast.Name(id=v, ctx=ast.Store()), iter=a[1], ifs=[], is_async=0)])
             else:
                 # a call of a known spelling with plain arguments:  attrgetter("a")(x), partial(g, a)(x), operator.eq(a, b)
                 r = apply_fn(node.func, list(a), node) if isinstance(node.func, (ast.Call, ast.Lambda)) or (_qual(node.func, imp, shadowed) or "").startswith("operator.") else None
@@ -1190,7 +1201,12 @@ def defunctionalise(tree):
                         new_target = st.target
                     else:
                         conds = list(g.ifs)
-                        inner = [ast.copy_location(ast.Assign(targets=[st.target], value=it.elt, type_comment=None), st)] + inner
+                        throwaway = isinstance(st.target, ast.Name) and st.target.id == "_" and all(isinstance(b, ast.Pass) for b in inner)
+                        if throwaway:
+                            # `for _ in (f(x) for x in xs): pass`  drives the generator: the calls are the loop body
+                            inner = [ast.copy_location(ast.Expr(value=it.elt), st)]
+                        else:
+                            inner = [ast.copy_location(ast.Assign(targets=[st.target], value=it.elt, type_comment=None), st)] + inner
                         new_target = g.target
                     for c in reversed(conds):
                         inner = [ast.copy_location(ast.If(test=c, body=inner, orelse=[]), st)]
@@ -1213,7 +1229,13 @@ def defunctionalise(tree):
                     for a in it.args:
                         cp = _c.deepcopy(st)
                         cp.iter = a
-                        out.extend(loops([cp]))
+                        one = isinstance(a, (ast.List, ast.Tuple)) and len(a.elts) == 1 and not isinstance(a.elts[0], ast.Starred)
+                        if one and not any(isinstance(x, ast.Continue) for b in cp.body for x in ast.walk(b)):
+                            # for x in [e]: BODY  ->  x = e; BODY
+                            out.append(ast.copy_location(ast.Assign(targets=[cp.target], value=a.elts[0], type_comment=None), st))
+                            out.extend(loops(cp.body))
+                        else:
+                            out.extend(loops([cp]))
                     stats[0] += 1
                     continue
                 if q == "itertools.chain.from_iterable" and len(it.args) == 1 and no_break(st.body):
@@ -1226,9 +1248,260 @@ def defunctionalise(tree):
             out.append(st)
         return out
 
+    def hoist_reduce(fn):
+        """<stmt using reduce(lambda acc, x: E, xs, init) as the first thing it evaluates>  ->
+               acc = init;  for x in xs: acc = E  [`acc = A if C else acc` -> `if C: acc = A`];  <stmt using acc>"""
+        for blk in ast.walk(fn):
+            for fld in ("body", "orelse", "finalbody"):
+                seq = getattr(blk, fld, None)
+                if not isinstance(seq, list):
+                    continue
+                for j, st in enumerate(list(seq)):
+                    if not isinstance(st, (ast.Expr, ast.Assign, ast.Return)) or st.value is None:
+                        continue
+                    spine, parent, field = st.value, st, "value"
+                    while True:
+                        if isinstance(spine, ast.Call) and _qual(spine.func, imp, shadowed) == "functools.reduce":
+                            break
+                        if isinstance(spine, ast.Call):
+                            parent, field, spine = spine, "func", spine.func
+                        elif isinstance(spine, ast.Attribute):
+                            parent, field, spine = spine, "value", spine.value
+                        else:
+                            spine = None
+                            break
+                    if spine is None or len(spine.args) != 3 or spine.keywords or not isinstance(spine.args[0], ast.Lambda):
+                        continue
+                    lam, xs, init = spine.args
+                    if len(lam.args.args) != 2 or lam.args.vararg or lam.args.kwarg or lam.args.defaults:
+                        continue
+                    acc, x = lam.args.args[0].arg, lam.args.args[1].arg
+                    names_in_fn = {n.id for n in ast.walk(fn) if isinstance(n, ast.Name)} - {n.id for n in ast.walk(lam) if isinstance(n, ast.Name)}
+                    if acc in names_in_fn or x in names_in_fn:
+                        acc, x2 = acc + "_%d" % st.lineno, x + "_%d" % st.lineno
+                        body_e = _subst_name(_subst_name(lam.body, lam.args.args[0].arg, ast.Name(id=acc, ctx=ast.Load())), x, ast.Name(id=x2, ctx=ast.Load()))
+                        x = x2
+                    else:
+                        body_e = _c.deepcopy(lam.body)
+                    # x only used as x[0], x[1], ...: destructure
+                    subs = [n for n in ast.walk(body_e) if isinstance(n, ast.Subscript) and isinstance(n.value, ast.Name) and n.value.id == x and isinstance(n.slice, ast.Constant) and isinstance(n.slice.value, int) and n.slice.value >= 0]
+                    plain = [n for n in ast.walk(body_e) if isinstance(n, ast.Name) and n.id == x]
+                    target = ast.Name(id=x, ctx=ast.Store())
+                    if subs and len(subs) == len(plain):
+                        width = max(n.slice.value for n in subs) + 1
+                        if width == 2:  # (pairs: the only width the code base iterates this way)
+                            names = ["%s_%d" % (x, k) for k in range(width)]
+
+                            class D(ast.NodeTransformer):
+                                def visit_Subscript(self, node):
+                                    if isinstance(node.value, ast.Name) and node.value.id == x and isinstance(node.slice, ast.Constant):
+                                        return ast.copy_location(ast.Name(id=names[node.slice.value], ctx=ast.Load()), node)
+                                    return self.generic_visit(node)
+
+                            body_e = D().visit(body_e)
+                            target = ast.Tuple(elts=[ast.Name(id=nm, ctx=ast.Store()) for nm in names], ctx=ast.Store())
+                    if isinstance(body_e, ast.IfExp) and isinstance(body_e.orelse, ast.Name) and body_e.orelse.id == acc:
+                        step = ast.If(test=body_e.test, body=[ast.Assign(targets=[ast.Name(id=acc, ctx=ast.Store())], value=body_e.body, type_comment=None)], orelse=[])
+                    elif isinstance(body_e, ast.IfExp) and isinstance(body_e.body, ast.Name) and body_e.body.id == acc:
+                        step = ast.If(test=_negate(body_e.test), body=[ast.Assign(targets=[ast.Name(id=acc, ctx=ast.Store())], value=body_e.orelse, type_comment=None)], orelse=[])
+                    else:
+                        step = ast.Assign(targets=[ast.Name(id=acc, ctx=ast.Store())], value=body_e, type_comment=None)
+                    pre = ast.Assign(targets=[ast.Name(id=acc, ctx=ast.Store())], value=init, type_comment=None)
+                    loop = ast.For(target=target, iter=xs, body=[step], orelse=[], type_comment=None)
+                    setattr(parent, field, ast.Name(id=acc, ctx=ast.Load()))
+                    for new in (pre, loop):
+                        for n in ast.walk(new):
+                            ast.copy_location(n, st)
+                    k = seq.index(st)
+                    seq[k:k] = [pre, loop]
+                    stats[0] += 1
+
+    def inline_gen_locals(fn):
+        """`g = (generator expression)` bound once and used only as the iterable of one for-loop: loop over it directly"""
+        for blk in ast.walk(fn):
+            for fld in ("body", "orelse", "finalbody"):
+                seq = getattr(blk, fld, None)
+                if not isinstance(seq, list):
+                    continue
+                for st in list(seq):
+                    lazy = isinstance(getattr(st, "value", None), ast.GeneratorExp) or (isinstance(getattr(st, "value", None), ast.Call) and _qual(st.value.func, imp, shadowed) in ("itertools.chain.from_iterable", "itertools.chain", "itertools.takewhile"))
+                    if isinstance(st, ast.Assign) and len(st.targets) == 1 and isinstance(st.targets[0], ast.Name) and lazy:
+                        nm = st.targets[0].id
+                        binds = [x for x in ast.walk(fn) if isinstance(x, ast.Name) and x.id == nm and isinstance(x.ctx, (ast.Store, ast.Del))]
+                        uses = [x for x in ast.walk(fn) if isinstance(x, ast.Name) and x.id == nm and isinstance(x.ctx, ast.Load)]
+                        if len(binds) != 1 or len(uses) != 1:
+                            continue
+                        placed = False
+                        for other in seq[seq.index(st) + 1 :]:
+                            if isinstance(other, ast.For) and other.iter is uses[0]:
+                                other.iter = st.value
+                                placed = True
+                            else:
+                                # ... or as the iterable of the (first) generator of a later lazy expression
+                                for c in ast.walk(other):
+                                    if isinstance(c, ast.GeneratorExp) and c.generators and c.generators[0].iter is uses[0]:
+                                        c.generators[0].iter = st.value
+                                        placed = True
+                            if placed:
+                                seq.remove(st)
+                                stats[0] += 1
+                                break
+
     for n in ast.walk(tree):
         if isinstance(n, (ast.FunctionDef, ast.AsyncFunctionDef)):
+            inline_gen_locals(n)
+            hoist_reduce(n)
             n.body = loops(n.body)
+    if stats[0]:
+        ast.fix_missing_locations(tree)
+    return stats[0]
+
+
+# ---------------------------------------------------------------------------------------------------------------------
+# A few more spellings of the same loops / displays (applied per function, after defunctionalise):
+#
+#     [f(x) for x in xs]            as a statement            ->  for x in xs: f(x)
+#     def h(p): BODY  (local, only called as a statement)     ->  BODY at the call sites (p := the argument name)
+#     for a, b in zip(xs, repeat(E)): BODY                    ->  for a in xs: b = <E evaluated once before the loop>; BODY
+#     (E2 for w in (E1 for v in xs if c))                     ->  (E2[w := E1] for v in xs if c)
+#     dict(zip(d.keys(), (E for v in d.values())))            ->  {k: E for k, v in d.items()}
+#     m = {**a};  m.update(b)                                 ->  m = {**a, **b}
+
+
+def more_spellings(tree):
+    imp = _imports(tree)
+    import copy as _c
+
+    stats = [0]
+
+    class Fuse(ast.NodeTransformer):
+        def visit_GeneratorExp(self, node):
+            self.generic_visit(node)
+            if len(node.generators) == 1 and not node.generators[0].ifs and isinstance(node.generators[0].iter, ast.GeneratorExp) and isinstance(node.generators[0].target, ast.Name):
+                inner = node.generators[0].iter
+                w = node.generators[0].target.id
+                uses = [x for x in ast.walk(node.elt) if isinstance(x, ast.Name) and x.id == w]
+                if len(inner.generators) == 1 and (len(uses) == 1 or isinstance(inner.elt, (ast.Name, ast.Attribute))):
+                    stats[0] += 1
+                    return ast.copy_location(ast.GeneratorExp(elt=_subst_name(node.elt, w, inner.elt), generators=inner.generators), node)
+            return node
+
+        def visit_Call(self, node):
+            self.generic_visit(node)
+            # dict(zip(d.keys(), (E for v in d.values())))
+            if isinstance(node.func, ast.Name) and node.func.id == "dict" and len(node.args) == 1 and not node.keywords and isinstance(node.args[0], ast.Call) and isinstance(node.args[0].func, ast.Name) and node.args[0].func.id == "zip" and len(node.args[0].args) == 2:
+                k, vs = node.args[0].args
+                if isinstance(k, ast.Call) and isinstance(k.func, ast.Attribute) and k.func.attr == "keys" and not k.args and isinstance(vs, ast.GeneratorExp) and len(vs.generators) == 1 and not vs.generators[0].ifs and isinstance(vs.generators[0].target, ast.Name):
+                    src = vs.generators[0].iter
+                    if isinstance(src, ast.Call) and isinstance(src.func, ast.Attribute) and src.func.attr == "values" and not src.args and ast.dump(src.func.value) == ast.dump(k.func.value):
+                        kn = "_k%d" % getattr(node, "lineno", 0)
+                        items = ast.Call(func=ast.Attribute(value=k.func.value, attr="items", ctx=ast.Load()), args=[], keywords=[])
+                        tgt = ast.Tuple(elts=[ast.Name(id=kn, ctx=ast.Store()), ast.Name(id=vs.generators[0].target.id, ctx=ast.Store())], ctx=ast.Store())
+                        dc = ast.DictComp(key=ast.Name(id=kn, ctx=ast.Load()), value=vs.elt, generators=[ast.comprehension(target=tgt, iter=items, ifs=[], is_async=0)])
+                        for x in ast.walk(dc):
+                            ast.copy_location(x, node)
+                        stats[0] += 1
+                        return dc
+            return node
+
+    Fuse().visit(tree)
+
+    def stmts(fn):
+        # local helper functions called only as statements
+        local_defs = {}
+        for st in fn.body:
+            if isinstance(st, ast.FunctionDef) and not st.decorator_list and not st.args.vararg and not st.args.kwarg and not st.args.kwonlyargs and not st.args.defaults:
+                local_defs[st.name] = st
+        for name, d in list(local_defs.items()):
+            refs = [x for x in ast.walk(fn) if isinstance(x, ast.Name) and x.id == name and isinstance(x.ctx, ast.Load)]
+            rets = [x for x in ast.walk(d) if isinstance(x, ast.Return) and x.value is not None and not _is_none_const(x.value)]
+            inner_stores = {x.id for x in ast.walk(d) if isinstance(x, ast.Name) and isinstance(x.ctx, ast.Store)}
+            outer_names = {x.id for b in fn.body if b is not d for x in ast.walk(b) if isinstance(x, ast.Name)} | {a.arg for a in fn.args.args}
+            if rets or (inner_stores & outer_names) or any(isinstance(x, (ast.Yield, ast.YieldFrom, ast.Nonlocal, ast.Global, ast.Return)) for x in ast.walk(d)):
+                del local_defs[name]
+        changed = True
+        while changed:
+            changed = False
+            for blk in ast.walk(fn):
+                for fld in ("body", "orelse", "finalbody"):
+                    seq = getattr(blk, fld, None)
+                    if not isinstance(seq, list):
+                        continue
+                    for j, st in enumerate(list(seq)):
+                        # [f(x) for x in xs] as a statement
+                        if isinstance(st, ast.Expr) and isinstance(st.value, ast.ListComp) and len(st.value.generators) == 1 and not st.value.generators[0].is_async:
+                            g = st.value.generators[0]
+                            body = [ast.copy_location(ast.Expr(value=st.value.elt), st)]
+                            for c in reversed(g.ifs):
+                                body = [ast.copy_location(ast.If(test=c, body=body, orelse=[]), st)]
+                            loop = ast.copy_location(ast.For(target=g.target, iter=g.iter, body=body, orelse=[], type_comment=None), st)
+                            seq[j] = loop
+                            stats[0] += 1
+                            changed = True
+                        # h(a) with h a local helper
+                        if isinstance(st, ast.Expr) and isinstance(st.value, ast.Call) and isinstance(st.value.func, ast.Name) and st.value.func.id in local_defs and not st.value.keywords:
+                            d = local_defs[st.value.func.id]
+                            args = st.value.args
+                            if len(args) == len(d.args.args) and all(isinstance(a, ast.Name) for a in args):
+                                body = _c.deepcopy(d.body)
+                                for prm, a in zip(d.args.args, args):
+                                    if prm.arg != a.id:
+                                        body = [_subst_name(b, prm.arg, a) for b in body]
+                                body = [b for b in body if not (isinstance(b, ast.Expr) and isinstance(b.value, ast.Constant))]
+                                seq[j : j + 1] = body
+                                stats[0] += 1
+                                changed = True
+        for name, d in local_defs.items():
+            if not any(isinstance(x, ast.Name) and x.id == name and isinstance(x.ctx, ast.Load) for x in ast.walk(fn)) and d in fn.body:
+                fn.body.remove(d)
+        # zip(xs, repeat(E))
+        for blk in ast.walk(fn):
+            for fld in ("body", "orelse", "finalbody"):
+                seq = getattr(blk, fld, None)
+                if not isinstance(seq, list):
+                    continue
+                for j, st in enumerate(list(seq)):
+                    if isinstance(st, ast.For) and isinstance(st.iter, ast.Call) and isinstance(st.iter.func, ast.Name) and st.iter.func.id == "zip" and len(st.iter.args) == 2 and isinstance(st.target, ast.Tuple) and len(st.target.elts) == 2 and isinstance(st.target.elts[1], ast.Name):
+                        xs, rp = st.iter.args
+                        src = rp
+                        local = None
+                        if isinstance(rp, ast.Name):
+                            bound = [b for b in seq[:j] if isinstance(b, ast.Assign) and len(b.targets) == 1 and isinstance(b.targets[0], ast.Name) and b.targets[0].id == rp.id]
+                            uses = [x for x in ast.walk(fn) if isinstance(x, ast.Name) and x.id == rp.id and isinstance(x.ctx, ast.Load)]
+                            if len(bound) == 1 and len(uses) == 1:
+                                src, local = bound[0].value, bound[0]
+                        if isinstance(src, ast.Call) and _qual(src.func, imp, set()) == "itertools.repeat" and len(src.args) == 1 and not src.keywords:
+                            once = "_once%d" % st.lineno
+                            pre = ast.copy_location(ast.Assign(targets=[ast.copy_location(ast.Name(id=once, ctx=ast.Store()), st)], value=src.args[0], type_comment=None), local or st)
+                            st.iter = xs
+                            bvar = st.target.elts[1]
+                            st.target = st.target.elts[0]
+                            st.body = [ast.copy_location(ast.Assign(targets=[bvar], value=ast.copy_location(ast.Name(id=once, ctx=ast.Load()), st), type_comment=None), st)] + st.body
+                            if local is not None:
+                                seq[seq.index(local)] = pre
+                            else:
+                                seq.insert(seq.index(st), pre)
+                            stats[0] += 1
+        # m = {**a}; m.update(b)
+        for blk in ast.walk(fn):
+            for fld in ("body", "orelse", "finalbody"):
+                seq = getattr(blk, fld, None)
+                if not isinstance(seq, list):
+                    continue
+                j = 0
+                while j + 1 < len(seq):
+                    s0, s1 = seq[j], seq[j + 1]
+                    if isinstance(s0, ast.Assign) and len(s0.targets) == 1 and isinstance(s0.targets[0], ast.Name) and isinstance(s0.value, ast.Dict) and isinstance(s1, ast.Expr) and isinstance(s1.value, ast.Call) and isinstance(s1.value.func, ast.Attribute) and s1.value.func.attr == "update" and isinstance(s1.value.func.value, ast.Name) and s1.value.func.value.id == s0.targets[0].id and len(s1.value.args) == 1 and not s1.value.keywords and isinstance(s1.value.args[0], ast.Name):
+                        s0.value.keys.append(None)
+                        s0.value.values.append(s1.value.args[0])
+                        del seq[j + 1]
+                        stats[0] += 1
+                        continue
+                    j += 1
+
+    for n in ast.walk(tree):
+        if isinstance(n, (ast.FunctionDef, ast.AsyncFunctionDef)):
+            stmts(n)
     if stats[0]:
         ast.fix_missing_locations(tree)
     return stats[0]
